@@ -90,6 +90,8 @@ def cases(tier, seed):
         yield {"fam": "realpool", "i": i}
     for i in range(3 if tier == "quick" else 24):
         yield {"fam": "realpool_fork", "i": i}
+    for i in range(3 if tier == "quick" else 24):
+        yield {"fam": "daemon_worker", "i": i}
 
 
 # ------------------------------------------------------------------------------------- snapshots
@@ -414,6 +416,38 @@ def run(case, ctx):
                 ctx.count("C15.option_combinations_judged")
             tr.check(ctx, -1, history)
         return
+    if fam == "daemon_worker":
+        # evaluation inside a daemonic worker process (what Pool.map workers are): the library may refuse it (a daemonic
+        # process cannot start the worker pool), but if it returns, the result is the one of the serial run
+        c = [0, 7, 2][i % 3]
+        cfg = dict(CONFIGS[c])
+        cfg["metrics"] = sorted(set(cfg.get("metrics", pan.DEFAULT_METRICS)) | {"RVD"})
+        # an input with true positives whose prediction and reference differ in size (all metrics informative)
+        for k in [(i * 3 + 2 + j) % N_INPUTS for j in range(N_INPUTS)]:
+            pred, refa = make_input(ctx.seed, k)[cfg["input"]]
+            serial = meta.run_all_groups(cfg, pred.copy(), refa.copy())
+            if any(isinstance(v, dict) and isinstance(v.get("sq_rvd"), float) and v["sq_rvd"] == v["sq_rvd"] and abs(v["sq_rvd"]) > 1e-9 for v in serial.values()):
+                break
+        outp = os.path.join(os.environ.get("VERIF_TMP", "/tmp"), "c15daemon_%d_%d.json" % (os.getpid(), i))
+        ctx.count("evaluations", 2)
+        try:
+            p = subprocess.run([harness.PY, "-B"] + harness.own_flags() + ["-m", "vf.props.c15", "--daemonworker", str(ctx.seed), str(c), str(k), outp],
+                               env=dict(os.environ, VERIF_REAL_POOL="1"), cwd=harness.VERIF, capture_output=True, text=True, timeout=600)
+        except subprocess.TimeoutExpired:
+            ctx.errors.append({"case": case, "tb": "daemonic-worker helper exceeded the wall-clock watchdog"})
+            return
+        if not os.path.exists(outp):
+            ctx.errors.append({"case": case, "tb": "daemonic-worker helper failed: " + (p.stderr or "")[-1500:]})
+            return
+        got = json.load(open(outp))
+        if got is None or "ERR" in got or all(isinstance(v, dict) and "ERR" in v for v in got.values()):
+            ctx.count("C15.daemonic_worker_refused")
+            return
+        ctx.count("C15.real_pool_judged")
+        d = results_equal(norm(serial), got, cfg["metrics"]) if "ERR" not in serial else "ERR"
+        if d is not None:
+            ctx.viol("serial_and_pool_differ", {"key": d, "serial": serial, "daemonic_worker": got, "cfg": cfg}, features={"what": "daemonic_worker", "key": str(d).split(":")[-1]})
+        return
     if fam == "realpool_fork":
         # a fresh interpreter that uses the real process pool from its first call: it evaluates, then forks (as worker
         # processes do) and the child evaluates again; both must return, with the result of the serial run
@@ -505,7 +539,32 @@ def fork_after_pool_main(seed, c, k, outp):
     os._exit(0)  # do not run exit handlers of pools a changed library may have left behind (they can block)
 
 
+def _daemon_target(seed, c, k, outp):
+    cfg = dict(CONFIGS[c])
+    cfg["metrics"] = sorted(set(cfg.get("metrics", pan.DEFAULT_METRICS)) | {"RVD"})
+    pred, refa = make_input(seed, k)[cfg["input"]]
+    try:
+        res = norm(meta.run_all_groups(cfg, pred.copy(), refa.copy()))
+    except BaseException as e:  # noqa: BLE001
+        res = {"ERR": "%s: %r" % (type(e).__name__, e)}
+    with open(outp, "w") as fh:
+        json.dump(harness.jsonable(res), fh)
+
+
+def daemon_worker_main(seed, c, k, outp):
+    import multiprocessing
+
+    p = multiprocessing.Process(target=_daemon_target, args=(seed, c, k, outp), daemon=True)
+    p.start()
+    p.join(300)
+    if p.is_alive():
+        p.kill()
+    os._exit(0)
+
+
 if __name__ == "__main__":
+    if len(sys.argv) >= 6 and sys.argv[1] == "--daemonworker":
+        daemon_worker_main(int(sys.argv[2]), int(sys.argv[3]), int(sys.argv[4]), sys.argv[5])
     if len(sys.argv) >= 6 and sys.argv[1] == "--forkafterpool":
         fork_after_pool_main(int(sys.argv[2]), int(sys.argv[3]), int(sys.argv[4]), sys.argv[5])
     if len(sys.argv) >= 4 and sys.argv[1] == "--pristine":
